@@ -65,6 +65,10 @@ func posClass(pos int) string {
 	return "in-range"
 }
 
+type c17Seq struct {
+	Seq []uint64 `json:"seq"`
+}
+
 func TestC17(t *testing.T) {
 	st := vstat.New("C17")
 	defer finish(t, st)
@@ -216,6 +220,52 @@ func TestC17(t *testing.T) {
 				}
 				st.NonTrivial(fmt.Sprintf("idx:%d", p.Index))
 				st.Class("index")
+				return nil
+			})
+		})
+
+	// Sequences of queries in one process: the answer for an index must not depend on which indices were asked before
+	// (memoisation, direct-mapped or truncated-key caches). Families: indices that agree in their low k bits or in their
+	// low 32 bits, neighbours, the same index again, interleaved with baked validator indices.
+	rapidProp(t, st, "index-sequences", perShard(pick(1500, 60000)), 4,
+		func(rt *rapid.T) c17Seq {
+			base := rapid.Uint64().Draw(rt, "base")
+			if rapid.IntRange(0, 3).Draw(rt, "small") == 0 {
+				base = uint64(rapid.IntRange(0, 300000).Draw(rt, "smallBase"))
+			}
+			k := rapid.SampledFrom([]uint{4, 8, 10, 12, 16, 20, 24, 32, 48}).Draw(rt, "bits")
+			var seq []uint64
+			for i, n := 0, rapid.IntRange(3, 10).Draw(rt, "len"); i < n; i++ {
+				switch rapid.IntRange(0, 5).Draw(rt, "step") {
+				case 0:
+					seq = append(seq, base)
+				case 1:
+					seq = append(seq, base+uint64(rapid.IntRange(1, 7).Draw(rt, "m"))<<k) // same low k bits
+				case 2:
+					seq = append(seq, base&(1<<k-1)) // only the low k bits
+				case 3:
+					seq = append(seq, base+uint64(rapid.IntRange(-2, 2).Draw(rt, "d")))
+				case 4:
+					seq = append(seq, uint64(rapid.IntRange(0, 7).Draw(rt, "m0"))<<k) // 0 and multiples of 2^k
+				default:
+					seq = append(seq, uint64(52694+rapid.IntRange(0, 141161).Draw(rt, "baked")))
+				}
+			}
+			return c17Seq{seq}
+		},
+		func(p c17Seq) *viol {
+			return safely("panic:GetSigningRoot", func() *viol {
+				for i, idx := range p.Seq {
+					got, err := wc_rotation.GetSigningRoot(idx)
+					if err != nil {
+						return violf("signing-root-error", "GetSigningRoot(%d): %v", idx, err)
+					}
+					if want := oracle.RefSigningRoot(idx); got != want {
+						return violf("wrong-signing-root", "validator %d, asked as query %d of the sequence %v: got %x, spec reference %x", idx, i+1, p.Seq, got, want)
+					}
+				}
+				st.NonTrivial(fmt.Sprintf("seq:%v", p.Seq))
+				st.Class("index-sequence")
 				return nil
 			})
 		})
